@@ -56,7 +56,7 @@ type Target struct {
 	FailExit int    `json:"fail_exit,omitempty"`
 	FailIf   string `json:"fail_if,omitempty"`
 	SleepMs  int    `json:"sleep_ms,omitempty"`
-	SleepIf  string `json:"sleep_if,omitempty"` // marker: sleep 600 s when present
+	SleepIf  string `json:"sleep_if,omitempty"` // marker: sleep 20 s when present
 	Omit     string `json:"omit,omitempty"`
 	OmitIf   string `json:"omit_if,omitempty"` // marker: do not write outputs when present
 	Touch    string `json:"touch,omitempty"`   // marker created by the command (establishes a checked condition)
